@@ -100,6 +100,26 @@ def reach : Nat → Heap → Nat → List Nat
       i :: ((match o.flushOnClose with | some j => ioReach n H j | none => []) ++
         (if o.closefd then o.owns.flatMap (reach n H) else []) ++ o.tracked.flatMap (reach n H))
 
+/-- what `close()` of an object goes on to close: what it owns when `closefd`, and what it tracks -/
+def kids (o : Obj) : List Nat := (if o.closefd then o.owns else []) ++ o.tracked
+
+def rankedB (rk : Nat → Nat) (H : Heap) : Bool :=
+  (List.range H.length).all fun i => match H[i]? with
+    | some o => (kids o).all fun k => decide (rk k < rk i)
+    | none => true
+
+def noFlushB (H : Heap) : Bool := H.all fun o => o.flushOnClose.isNone
+
+def freshB (H : Heap) : Bool := H.all fun o => !o.closeOnce || !o.closed
+
+/-- depth of an object in the close graph (a ranking, when the graph is acyclic and the fuel suffices) -/
+def depthRank : Nat → Heap → Nat → Nat
+  | 0, _, _ => 0
+  | n + 1, H, i =>
+    match H[i]? with
+    | none => 0
+    | some o => 1 + ((kids o).map (depthRank n H)).foldl max 0
+
 /-! ### the transcription: what each constructor / open method allocates -/
 
 structure World where
